@@ -372,6 +372,32 @@ func runC19(c *Ctx) {
 		}
 	}
 	whoMayCall(c, "C19-D6", `\(\*sio\.packetQueue\)\.close`, []string{"(*sio.serverConn).closePacketQueue", "(*sio.Manager).closePacketQueue"}, true)
+	// the drain token is a rendezvous: it must reach only a waiter that is parked NOW.  With a buffer, ordinary traffic
+	// leaves a stale token behind and a later waitForDrain returns at once, before the in-flight batch was sent.
+	{
+		df := p.Field("sio", "packetQueue", "drain")
+		n := 0
+		for _, fn := range p.SrcFuncs() {
+			for _, st := range findInstrs(fn, fieldStorePred(df)) {
+				n++
+				mk, isMk := st.(*ssa.Store).Val.(*ssa.MakeChan)
+				okCap := false
+				if isMk {
+					if k, isK := mk.Size.(*ssa.Const); isK && k.Value != nil && k.Int64() == 0 {
+						okCap = true
+					}
+				}
+				c.Ob("C19-D6", "sio.packetQueue.drain/unbuffered@"+FuncName(fn), st.Pos(), okCap, "the drain channel is created as "+Term(st.(*ssa.Store).Val)+": it must be unbuffered, a buffered token outlives the drain it reports and lets close() wipe packets that were queued before the close began")
+			}
+		}
+		if n == 0 {
+			anchorFail("C19-D6: no store to packetQueue.drain found")
+		}
+	}
+
+	c.Rule("C19-D7", "a packet queued at the moment of an upgrade is carried over: the old transport's queue is read inside the write-locked swap region, after the swap (shared with C07-D2) — read before the swap, a Send in the gap "+
+		"lands in the discarded transport's queue, where nobody polls any more", 12)
+	swapRegion(c, "C19-D7")
 
 	c.Rule("C19-D5", "who may consume: packetQueue.get/poll are called only from poll/pollAndSend; pollQueue.get only from poll and QueuedPackets (a second consumer would steal packets)", 3)
 	whoMayCall(c, "C19-D5", `\(\*sio\.packetQueue\)\.get`, []string{"(*sio.packetQueue).poll"}, true)
